@@ -270,6 +270,43 @@ def extract_vector_ops(tree):
     return ops, named, plain_dunders, accepts_seq, wraps_handler
 
 
+def extract_scalar_operator(tree):
+    """-> True when scalarOperator's helper builds a FunctionDistribution over (self, *args) for a random self"""
+    fn = get_def(tree, "scalarOperator", VECT)
+    helper = [n for n in ast.walk(fn) if isinstance(n, ast.FunctionDef) and n.name == "helper"]
+    expect(len(helper) == 1, "scalarOperator: helper")
+    b = body_nodoc(helper[0])
+    expect(len(b) == 1 and isinstance(b[0], ast.If), "scalarOperator helper: expected one if-chain")
+    first = b[0]
+    if ast.unparse(first.test) == "needsSampling(self)":
+        expect(ast.unparse(first.body[-1]) == "return FunctionDistribution(method, (self, *args), kwargs)",
+               "scalarOperator helper: random self is not turned into FunctionDistribution(method, (self, *args), kwargs)")
+        expect(len(first.orelse) == 1 and isinstance(first.orelse[0], ast.If), "scalarOperator helper: elif missing")
+        rest = first.orelse[0]
+        samples_self = True
+    else:
+        rest, samples_self = first, False
+    expect(ast.unparse(rest.test) == "any((needsSampling(arg) for arg in itertools.chain(args, kwargs.values())))",
+           "scalarOperator helper: argument test changed")
+    expect(ast.unparse(rest.body[-1]) == "return MethodDistribution(method, self, args, kwargs)"
+           and len(rest.orelse) == 1 and ast.unparse(rest.orelse[0]) == "return method(self, *args, **kwargs)",
+           "scalarOperator helper: general cases changed")
+    return samples_self
+
+
+def extract_mux_selector(tree):
+    """the attribute in which MultiplexerDistribution keeps its selector"""
+    init = get_def(tree, "MultiplexerDistribution.__init__", DIST)
+    first = body_nodoc(init)[0]
+    expect(isinstance(first, ast.Assign) and len(first.targets) == 1 and isinstance(first.targets[0], ast.Attribute)
+           and is_name(first.targets[0].value, "self") and is_name(first.value, "index"),
+           "MultiplexerDistribution.__init__ does not start by storing its selector")
+    attr = first.targets[0].attr
+    sg = get_def(tree, "MultiplexerDistribution.sampleGiven", DIST)
+    expect(ast.unparse(body_nodoc(sg)[0]) == f"idx = value[self.{attr}]", "MultiplexerDistribution.sampleGiven does not read the selector")
+    return attr
+
+
 def extract_monotone(tree):
     out = []
     for st in tree.body:
@@ -313,7 +350,9 @@ def extract():
     mono = extract_monotone(geom)
     extract_distribution_method(dist)
     ident = extract_identity_methods(vect)
-    return {"simp": simp, "allowed": allowed, "reversible": rev, "guard": guard, "vecOps": vops, "vecNamed": named,
+    scalar_self = extract_scalar_operator(vect)
+    mux = extract_mux_selector(dist)
+    return {"scalarSamplesSelf": scalar_self, "muxSelector": mux, "simp": simp, "allowed": allowed, "reversible": rev, "guard": guard, "vecOps": vops, "vecNamed": named,
             "vecPlain": plain, "vecAcceptsSeq": accepts_seq, "vecWrapsOperands": wraps, "monotone": mono, "identityMethods": ident}
 
 
@@ -359,7 +398,8 @@ def exprTables : Tables :=
   {{ simp := [{", ".join(simp_rows)}],
     vecOps := [{", ".join(vec_rows)}],
     pythonDispatch := {"true" if d["guard"] else "false"},
-    vecHandlerAcceptsSeq := {"true" if d["vecAcceptsSeq"] else "false"} }}
+    vecHandlerAcceptsSeq := {"true" if d["vecAcceptsSeq"] else "false"},
+    vecOpsWrapOperands := {"true" if d["vecWrapsOperands"] else "false"} }}
 
 /-- `X * globalOrientation -> X` style simplifications on Orientation-typed values: (operator, reflected) -/
 def orientationIdentityOps : List (BinOp × Bool) := [{", ".join(ori_rows)}]
@@ -372,8 +412,13 @@ def reversibleOperators : List String := {q([a for a, _ in d["reversible"]])}
 def vectorPlainDunders : List String := {q(d["vecPlain"])}
 /-- named Vector methods with their lifting decorator -/
 def vectorNamedOps : List (String × String) := [{", ".join('("%s", "%s")' % x for x in d["vecNamed"])}]
-/-- the vector operators wrap tuple/list operands with toDistribution (the model does not cover such operands) -/
-def vectorOperatorsWrapOperands : Bool := {"true" if d["vecWrapsOperands"] else "false"}
+/-- `scalarOperator` (distanceTo, angleTo, norm, dot, ...) samples a Vector with random coordinates it is applied to
+    (3b90c565); these operators are outside the Lean model, the flag is re-decided by `gen_scalar_operator_samples_self` -/
+def scalarOperatorSamplesSelf : Bool := {"true" if d["scalarSamplesSelf"] else "false"}
+/-- MultiplexerDistribution keeps its selector in a private attribute (e1aeac6d: `self.index` shadowed the `index`
+    method of the sampled tuples/lists/strings) -/
+def multiplexerSelectorAttr : String := "{d["muxSelector"]}"
+def multiplexerSelectorPrivate : Bool := {"true" if d["muxSelector"].startswith("_") else "false"}
 /-- functions of geometry.py declared `monotonicDistributionFunction` -/
 def monotoneDeclared : List String := {q(d["monotone"])}
 
